@@ -73,9 +73,12 @@ structure St where
   /-- ghost: locked tokens minted for claimers through `lockVirtual` -/
   lockedMinted : Nat
 
+/-- `add_known_tokens` for one token: appended to `allTokens` unless already known -/
+def addTok (l : List Tok) (t : Tok) : List Tok := if t ∈ l then l else l ++ [t]
+
 def init (epoch lockEpochs : Nat) (known : List Tok) (contracts whitelist : List Nat) : St :=
   { w := Weekly.St.init
-    a := { accumulated := fun _ _ => 0, allTokens := lockedTok :: known.filter (· ≠ lockedTok),
+    a := { accumulated := fun _ _ => 0, allTokens := known.foldl addTok [lockedTok],
            collected := fun _ _ => 0, paid := fun _ _ => 0 }
     firstWeek := epoch, epoch := epoch, knownContracts := contracts, whitelist := whitelist
     allowExternal := fun _ => false, paused := false, lockEpochs := lockEpochs, perBlock := 0
@@ -227,9 +230,7 @@ def step (s : St) : Op → Option (St × Out)
   | .updateEnergy u => updateEnergy s u
   | .setEnergy u e => some ({ s with energy := upd s.energy u (some e) }, {})
   | .setPerBlock n => setPerBlock s n
-  | .addToken t =>
-      some ({ s with a := { s.a with allTokens :=
-                if t ∈ s.a.allTokens then s.a.allTokens else s.a.allTokens ++ [t] } }, {})
+  | .addToken t => some ({ s with a := { s.a with allTokens := addTok s.a.allTokens t } }, {})
   | .removeToken t => some ({ s with a := { s.a with allTokens := s.a.allTokens.erase t } }, {})
   | .addContract c =>
       some ({ s with knownContracts :=
